@@ -802,7 +802,7 @@ VALIDATORS = Seq("list", elem=_Validator())
 def _parse_cases():
     out = {}
     for on, od in (("origin", Cls(name="origin")), ("no-origin", NONE)):
-        for an, ad in (("args-parser", Const(_args_parser_value, name="args_parser")), ("no-args-parser", NONE)):
+        for an, ad in (("args-parser", Const(_args_parser_value, name="args_parser", accept=lambda v: isinstance(v, VFunc))), ("no-args-parser", NONE)):
             if on == "no-origin" and an == "args-parser":
                 continue
             for cn, cd in (("fail-fast", FALSE), ("collect", TRUE)):
@@ -824,6 +824,58 @@ def _parse_cases():
     return out
 
 
+# validators of a Rule class: abstract, deterministic partial functions of (running value, constraint value)
+vacc = z3.Function("validator_accepts", V, V, V, B)
+vres = z3.Function("validator_result", V, V, V, V)
+_vfold = z3.Function("validators_fold", sym.ARR, V, I, V)
+
+
+def _validator_call(ex, fn, args, kwargs, node):
+    """call model `validator`: validator(value, constraint) returns vres(f, value, c) iff vacc(f, value, c),
+    else raises some Exception"""
+    if len(args) == 2 and not kwargs and isinstance(fn, VObj):
+        ex.world.ext.use(ex, "validator(value, constraint): deterministic; returns or raises an Exception subclass; no side effects")
+        f, v, c = fn.t, ex.box(args[0]), ex.box(args[1])
+        if ex.branch(vacc(f, v, c)):
+            return VObj(vres(f, v, c))
+        ec = ex.fresh("ecls", V)
+        ex.assume(sym.sub(ec, ex.world.classes.of_py(Exception).t))
+        raise PyExc(VExc(VCls(ec, name="<=Exception"), {}, origin="validator"), node)
+    return None
+
+
+_C.CALL_MODELS["validator"] = _validator_call
+
+
+def _vparts(arr, i):
+    e = z3.Select(arr, i)
+    return z3.Select(sym.seq_arr(e), 2), z3.Select(sym.seq_arr(e), 1)        # (validator, constraint value)
+
+
+def _vfold_at(ex, arr, v0, kk):
+    term = _vfold(arr, v0, kk)
+    if not _bound_var_inside(kk):
+        f, c = _vparts(arr, kk - 1)
+        ex.side(term == z3.If(kk <= 0, v0, vres(f, _vfold(arr, v0, kk - 1), c)))
+    return term
+
+
+@specfn("vfold")
+def _vfold_fn(ex, fr, cls, v0, k):
+    """the running value after the first k validators of cls.__validators__, starting from v0"""
+    kk = k.t if isinstance(k, VInt) else z3.IntVal(k)
+    return VObj(_vfold_at(ex, cls.fields["__validators__"].arr, ex.box(v0), kk))
+
+
+@specfn("vacc_at")
+def _vacc_at(ex, fr, cls, v0, i):
+    """validator i accepts the running value it is given"""
+    it = i.t if isinstance(i, VInt) else z3.IntVal(i)
+    arr = cls.fields["__validators__"].arr
+    f, c = _vparts(arr, it)
+    return VBool(vacc(f, _vfold_at(ex, arr, ex.box(v0), it), c))
+
+
 _NOTHING_NEW = "len(context.errors) <= old(len(context.errors))"
 
 
@@ -834,21 +886,41 @@ class RULE_PARSE:
     is raised at once in both modes (the value could not even be typed)."""
     self_model = "RuleClass"
     cases = _parse_cases()
+    calls = "validator"
+    requires = {"clean_context_on_entry": "context is None or (len(context.errors) == 0 and len(context.tmp_errors) == 0)"}
     loops = {0: dict(invariant_by_case={
-        cn: ({"errors_only_grow": "len(context.errors) >= old(len(context.errors))",
-              "fail_fast_clean": "implies(not context.options.collect_errors, len(context.errors) == old(len(context.errors)))",
-              "tmp": "len(context.tmp_errors) == old(len(context.tmp_errors))"} if not cn.endswith("own-context") else
-             {"own_context": "True"})
+        cn: (dict({"errors_only_grow": "len(context.errors) >= old(len(context.errors))",
+                   "fail_fast_clean": "implies(not context.options.collect_errors, len(context.errors) == old(len(context.errors)))",
+                   "tmp": "len(context.tmp_errors) == old(len(context.tmp_errors))"},
+                  **({"running_value": "value is vfold(cls, %s, _k)" % "converted(cls.__origin__, old(value), context)",
+                      "accepted_so_far": "forall(_k, lambda i: vacc_at(cls, %s, i))" % "converted(cls.__origin__, old(value), context)"}
+                     if cn == "origin,no-args-parser,fail-fast" else {}))
+             if not cn.endswith("own-context") else {"own_context": "True"})
         for cn in _parse_cases()}, modifies=["context.errors"])}
     returns_by_case = {cn: ({"verdict_is_clean": _NOTHING_NEW} if not cn.endswith("own-context") else {})
                        for cn in _parse_cases()}
+    # C02 / C01: the validators are a fold over the running value, in __constraints__ order; a normal return
+    # means every one of them accepted, and the result is the folded value
+    _V1 = "converted(cls.__origin__, value, context)"
+    _RUN = "(not cls.__applied__) and (not context.options.ignore_constraints) and not (%s is None)" % _V1
+    returns_by_case["origin,no-args-parser,fail-fast"].update({
+        "origin_accepts": "implies(not cls.__applied__, accepts(cls.__origin__, value, context))",
+        "every_validator_accepted": "implies(%s, forall(len(cls.__validators__), lambda i: vacc_at(cls, %s, i)))" % (_RUN, _V1),
+        "result_is_the_folded_value": "implies(%s, result is vfold(cls, %s, len(cls.__validators__)))" % (_RUN, _V1),
+    })
+    raises_by_case = {"origin,no-args-parser,fail-fast": {"ParseError": {
+        "rejected_only_by_the_origin_or_a_validator":
+            "(not accepts(cls.__origin__, value, context)) or ((not context.options.ignore_constraints) and "
+            "exists(len(cls.__validators__), lambda i: not vacc_at(cls, %s, i)))" % _V1}}}
     returns = {}
     only_raises = ["ParseError"]
     frame = ["value", "cls"]
     modifies = ["context.errors"]
-    tags = {"verdict_is_clean": ["C10", "C01"], "only_raises": ["C04"], "no_input_mutation": ["C19"]}
+    tags = {"verdict_is_clean": ["C10", "C01"], "only_raises": ["C04"], "no_input_mutation": ["C19"],
+            "origin_accepts": ["C02", "C01"], "every_validator_accepted": ["C02", "C01"], "result_is_the_folded_value": ["C02", "C01", "C03"],
+            "ParseError.rejected_only_by_the_origin_or_a_validator": ["C02"], "running_value": ["C02", "C01"], "accepted_so_far": ["C02", "C01"]}
     assumes = ["pre_validate / post_validate are the identity hooks of Rule (inlined from the source; user overrides are outside the claim)",
-               "context.tmp_errors is empty on entry when the final raise_error is reached (callers pass a context whose pending union errors were cleared)"]
+               "the context passed in holds no recorded error (every caller enters a fresh sub-context or creates a new one)"]
 
     @staticmethod
     def setup(ex, frame):
@@ -932,3 +1004,51 @@ class INSTANCECHECK:
         o = frame.env["obj"]
         # obj is not a class built by LogicalType
         ex.assume(z3.Not(ex.world.is_class(o.t)))
+
+
+# ------------------------------------------------------------------------------------ C02 at the level of Rule.parse
+
+@specfn("validator_identity")
+def _validator_identity(ex, fr, cls):
+    """every validator of cls returns the value it is given (the `unchanged` clause proved for each strict
+    validator of Constraints under C02)"""
+    arr = cls.fields["__validators__"].arr
+    n = cls.fields["__validators__"].n
+    x = ex.fresh("xv", V)
+    i = ex.fresh("iv", I)
+    f, c = _vparts(arr, i)
+    return VBool(z3.ForAll([i, x], z3.Implies(z3.And(i >= 0, i < n), vres(f, x, c) == x)))
+
+
+_PLAIN = dict(cls=RULE(__origin__=Cls(name="origin"), __args_parser__=NONE, __validators__=VALIDATORS, contains=NONE, __applied__=FALSE),
+              value=OBJ_NN, context=Rec("RuntimeContext", options=Rec("Options", collect_errors=FALSE, max_errors=NONE, ignore_constraints=FALSE)))
+
+
+@lemma("C02_fold_of_identity_validators_induction", props=["C02", "C03"],
+       cases={"any": dict(cls=_PLAIN["cls"], value=OBJ_NN, k=NAT)})
+def _fold_induction(cls, value, k):
+    """induction over the number of validators: if each validator returns its argument, the running value
+    never changes (base and step; the conclusion for all k is the induction principle)"""
+    assume(validator_identity(cls))
+    assert vfold(cls, value, 0) is value, "base"
+    assume(k < len(cls.__validators__))
+    assume(vfold(cls, value, k) is value)
+    assert vfold(cls, value, k + 1) is value, "step"
+
+
+@lemma("C02_exact_on_well_typed_values", props=["C02"], cases={"any": dict(_PLAIN)})
+def _exact_on_well_typed(cls, value, context):
+    """C02 at the level of Rule.parse: for a value that already has the source type, parsing succeeds exactly
+    when every validator accepts it, and returns the value itself (validators are strict: identity on accept)"""
+    assume(typeof(value) is cls.__origin__)
+    assume(len(context.errors) == 0 and len(context.tmp_errors) == 0)
+    assume(validator_identity(cls))
+    # conclusion of lemma C02_fold_of_identity_validators_induction
+    assume(forall(len(cls.__validators__) + 1, lambda j: vfold(cls, value, j) is value))
+    try:
+        r = call("utype/parser/rule.py", "Rule.parse", cls, value, context)
+    except ParseError:
+        assert exists(len(cls.__validators__), lambda i: not vacc_at(cls, value, i)), "rejected_only_if_a_constraint_fails"
+        return
+    assert r is value, "result_is_the_input"
+    assert forall(len(cls.__validators__), lambda i: vacc_at(cls, value, i)), "accepted_only_if_every_constraint_holds"
